@@ -17,6 +17,7 @@ Inductive stmt :=
 | SBlock (body : list stmt)
 | SLocal (kind : Z) (decls : list (Z * option expr))  (* var / let / const x = e, ... *)
 | SLoop (id : Z) (init : option expr)               (* a loop with opaque test / update / body, after its initializer *)
+| SLabel (l : Z) (body : stmt)                      (* l: body -- "break l" inside completes it *)
 | SEmpty.
 
 Inductive completion :=
@@ -57,6 +58,13 @@ Section StmtSem.
   Definition run_loop (id : Z) (tr : trace) : option (trace * completion) :=
     ebind (eff tr (wloop id)) (fun tr1 _ => Some (tr1, CNormal)).
 
+  (* the end of a labelled statement catches "break l" *)
+  Definition end_label (l : Z) (r : option (trace * completion)) : option (trace * completion) :=
+    match r with
+    | Some (tr1, CBreak (Some l')) => if l' =? l then Some (tr1, CNormal) else r
+    | _ => r
+    end.
+
   Fixpoint exec (tr : trace) (s : stmt) {struct s} : option (trace * completion) :=
     match s with
     | SExpr e => ebind (eval W tr e) (fun tr1 _ => Some (tr1, CNormal))
@@ -81,6 +89,7 @@ Section StmtSem.
            end) tr decls
     | SLoop id None => run_loop id tr
     | SLoop id (Some e) => ebind (eval W tr e) (fun tr1 _ => run_loop id tr1)
+    | SLabel l b => end_label l (exec tr b)
     | SEmpty => Some (tr, CNormal)
     end.
 
@@ -135,6 +144,18 @@ Section Norm.
   (* a test whose two arms are the same jump is evaluated for its effects only *)
   Definition mk_if (e : expr) (k1 k2 : tree) : tree :=
     if leaf_eqb k1 k2 then mk_eff e k1 else TIf e k1 k2.
+
+  (* the tree of a labelled statement followed by k: normal completion and "break l" go on with k *)
+  Fixpoint graft (l : Z) (t k : tree) {struct t} : tree :=
+    match t with
+    | TEnd => k
+    | TBreak (Some l') => if l' =? l then k else t
+    | TEff e t1 => TEff e (graft l t1 k)
+    | TIf e t1 t2 => mk_if e (graft l t1 k) (graft l t2 k)
+    | TDecl ki r e t1 => TDecl ki r e (graft l t1 k)
+    | TLoop i t1 => TLoop i (graft l t1 k)
+    | _ => t
+    end.
 
   (* an expression evaluated for its effects / as a branch condition: the operators
      the mangler builds statements from (comma, !, void, &&, ||, ?:) become tree structure *)
@@ -195,6 +216,7 @@ Section Norm.
            end) decls
     | SLoop id None => TLoop id k
     | SLoop id (Some e) => split_eff e (TLoop id k)
+    | SLabel l b => graft l (norm b TEnd) k
     | SEmpty => k
     end.
 
@@ -210,6 +232,7 @@ Fixpoint var_names (s : stmt) {struct s} : list Z :=
   | SIf _ y n => var_names y ++ var_names n
   | SBlock b => (fix go (l : list stmt) : list Z := match l with [] => [] | x :: r => var_names x ++ go r end) b
   | SLocal kind decls => if kind =? 0 then map fst decls else []
+  | SLabel _ b => var_names b
   | _ => []
   end.
 Fixpoint var_names_list (l : list stmt) : list Z :=
